@@ -1,6 +1,7 @@
 """Swarm generation of worlds and query pools (DESIGN §2.3): first a configuration, then the plan parts."""
 from __future__ import annotations
 
+import copy
 from typing import Any, Dict, List
 
 ALL_VOCAB = ["cmp2", "objeq", "in", "chain", "idx", "call", "fp", "cp", "ht", "forall", "flat", "nest", "kw", "nodom"]
@@ -428,6 +429,52 @@ def gen_world_and_pool(rng, cfg, want_region=None, tries=60):
         if query_regions(q) - {want_region}:
             q["conds"] = []
     return world, pool
+
+
+# ------------------------------------------------------------------------------------------ shared sub-queries
+
+def share_subquery(rng, cfg, world, pool):
+    """One reusable sub-query OBJECT (`allowed = an(entity(x, ...))`) becomes a conjunct of two or more queries of
+    the pool, at different positions, so that one set of condition nodes is evaluated in different binding
+    contexts (its variable already bound by an earlier conjunct / still unbound)."""
+    names = [v["n"] for v in pool["vars"] if v["n"] != "u" and v.get("t") != "View"]
+    for _ in range(40):
+        n = rng.choice(names)
+        cg = CondGen(rng, dict(cfg, vocab=sorted((set(cfg["vocab"]) | {"in"}) - {"nest", "forall", "flat"})),
+                       world, names, {})
+        sub_conds = []
+        for _k in range(rng.choice([1, 1, 2])):
+            if rng.random() < 0.5:
+                # the literal operand comes first: in_(x.a, [1, 3]) is contains([1, 3], x.a)
+                sub_conds.append(["in", cg.num_term([n]), ["lit", rng.sample(world["vals"], 2)]])
+            else:
+                sub_conds.append(cg.atom([n]))
+        sub = ["sub", n, sub_conds, "s0"]
+        chosen = rng.sample(range(len(pool["queries"])), rng.randint(2, len(pool["queries"])))
+        trial = copy.deepcopy(pool["queries"])
+        for qi in chosen:
+            q = trial[qi]
+            conds = q.setdefault("conds", [])
+            conds.insert(rng.randint(0, len(conds)), copy.deepcopy(sub))
+            others = [m for m in names if m != n]
+            if others and rng.random() < 0.5:
+                # a join condition with another variable, before or after the sub-query
+                o = rng.choice(others)
+                j = ["cmp", cg.num_term([o]), rng.choice(["==", "==", "!=", "<", ">="]), cg.num_term([n])]
+                conds.insert(rng.randint(0, len(conds)), j)
+                if q.get("shape") == "set_of" and o not in q["sel"] and rng.random() < 0.7:
+                    q["sel"] = q["sel"] + [o]
+        probe = dict(pool, queries=trial)
+        if not pool_regions(probe):
+            pool["queries"] = trial
+            return
+    # could not stay outside the known-defect regions: the sub-query alone
+    n = names[0]
+    for q in pool["queries"]:
+        q["conds"] = [["sub", n, [["in", ["attr", ["v", n], "a"], ["lit", list(world["vals"][:2])]]], "s0"]]
+    if pool_regions(pool):
+        for q in pool["queries"]:
+            q["conds"] = []
 
 
 # ------------------------------------------------------------------------------------------ rules / inference
